@@ -6,6 +6,12 @@ import os
 VERIF = os.path.dirname(os.path.dirname(os.path.abspath(__file__)))
 
 CHECKS = {
+    "C01": ("record-only hooks on the sampling factory + exact black-box law measurement of on-the-fly samplers; oracle: quadrature of the model density on harness-recomputed cells, corner-sum Levy-copula mass on quadrature tail integrals",
+            "Held-on-observed: every state rate handed to / realised by every accepted sampling method compared with an independent mass, on all grid constructors, levels 0..5, 1-d families and 2-d/3-d copulas; tiling and intensity monitors.",
+            "Trusts scipy quad and the copula callable (C11); finite-variation margins only for copulas in this check.", "3/C01"),
+    "C13": ("icontract post-conditions on CTMCGrid.__init__ and CTMCGrid.refine attached from the harness (class invariant + OLD-snapshot nesting contract), quadrature oracle for promised probabilities",
+            "Held-on-observed: contracts evaluated on every grid built and refined by all 6 constructors, d=1..3, 0..6 refinements.",
+            "Domain: >=2 states per half-axis, l<a<-h, two-sided measures for probability-step grids.", "3/C13"),
     # id: (technique, level text, level note, design ref)
     "C09": ("runtime monitor of every Levy-measure integral vs independent quadrature of the model's own density "
             "(reference-oracle monitor over generated intervals; library quad calls counted by a hook)",
